@@ -480,6 +480,9 @@ def check_c18(run):
     cs = std_configs(run.tier, hists=("full", "stages3"), stops=(0, 2, 3), small=True)
     cs.append(("1d-h5-multi", fmm_constants(1, 5, POOL_1D_H5[:5], maxper=3, maxparts=8, bss=(1, 2, 20))))
     run_fmm_configs(run, "C18", cs)
+    # per-worker copies under task schedules: merged counters must equal the sequential count, each copy used by one worker only
+    pairs, mism, _ = omp_campaign(run, "C18-omp-1d-h5", fmm_constants(1, 5, POOL_1D_H5[:7], bss=(1, 2, 20), hists=("full", "stages3")), run.tier, graphs=0)
+    report_mismatches(run, "C18", "C18-omp-1d-h5", pairs, [(k, re.sub(r"-(immediate|deferred|tlc)-.*$", "", key), "%s [%s]" % (t, key)) for k, key, t in mism], ["Counters", "KernelPerWorker", "WorkerKernelBound", "Crash"])
     run.coverage["rule"] = FMM_RULE + "; the executor runs TbfInteractionCounter<BagKernel>: its merged counters must equal the cardinalities TLC derives from the elementary sets (CountersEqualElementary), the wrapped kernel's own count, and leave the bag results unchanged"
     run.coverage["exhaustive"] = True
     run.assumptions += FMM_ASSUME + ["per-worker copies and merge orders under task schedules are covered by C03's mock-runtime runs"]
@@ -497,6 +500,195 @@ def check_c01(run):
     run.coverage["rule"] = FMM_RULE
     run.coverage["exhaustive"] = True
     run.assumptions += FMM_ASSUME
+
+
+# =====================================================================================================
+# C03 / C15: task executors under the mock runtime, TaskRuntime.tla on the recorded graphs
+# =====================================================================================================
+def omp_campaign(run, name, consts, tier, variant="plain", graphs=24, max_graph_tasks=40, schedules=None, limit=None, cap=64):
+    """TLC (Fmm.tla) generates the scenarios; replay_omp runs the OpenMP executors under the mock runtime on each of them with a
+    list of schedules, compares with the sequential executor, evaluates Covered on the recorded graph and writes graphs for TLC."""
+    res = tlc_sharded("Fmm", consts, FMM_INVS, ["WriteSets"], 8, 1, 1500, name)
+    run.add_tlc(name, res, note="scenario generation for the task executors: Dim=%s Height=%s Mode=%s pool=%d" % (consts["Dim"], consts["Height"], consts["Mode"], len(consts["Pool"])))
+    if res.violated:
+        run.machinery_errors.append("TLC: %s violated in %s (log %s)" % (res.violated, name, res.logpath))
+        return [], [], None
+    scn = [r for r in res.lines if r.get("k") == "scn"]
+    if limit:
+        scn = sorted(scn, key=lambda r: -len(r["sparts"]))[:limit]
+    binp = need(build("replay_omp_%d_%d_%d%s" % (consts["Dim"], int(consts["Periodic"]), cap, "_asan" if variant == "asan" else ""), "replay_omp.cpp",
+                      ["DIMV=%d" % consts["Dim"], "PERIODICV=%d" % int(consts["Periodic"]), "CAPV=%d" % cap], variant=variant), run)
+    pool = sorted(consts["Pool"])
+    recs = [fmm_record(r, pool, (i + run.seed) % NVARIANTS) for i, r in enumerate(scn)]
+    nchunks = max(1, min(vlib.NCPU, len(recs) // 40))
+    chunks = [recs[i::nchunks] for i in range(nchunks)]
+    gdir = os.path.join(CACHE, "graphs")
+    os.makedirs(gdir, exist_ok=True)
+    def one(ic):
+        i, ch = ic
+        env = {"VERIF_GRAPH_FILE": os.path.join(gdir, "%s-%d-%d.ndjson" % (name, os.getpid(), i)), "VERIF_GRAPHS": str(max(1, graphs // nchunks)),
+               "VERIF_GRAPH_MAXTASKS": str(max_graph_tasks), "VERIF_GRAPH_EVERY": str(max(1, len(ch) // (3 * max(1, graphs // nchunks))))}
+        if schedules:
+            env["VERIF_SCHEDULES"] = schedules
+        return run_bin(binp, ["thorough"] if tier == "thorough" else [], stdin_text="\n".join(ch) + "\n", timeout=1500, env=env), env["VERIF_GRAPH_FILE"]
+    with ThreadPoolExecutor(max_workers=nchunks) as ex:
+        outs = list(ex.map(one, enumerate(chunks)))
+    mism, checks, gfiles, tlcrep = [], 0, [], 0
+    for ((rc, out, err), gf) in outs:
+        m, summary = parse_harness_output(out)
+        if "HARNESS-ERROR" in out:
+            raise vlib.HarnessError("replay_omp: " + [l for l in out.splitlines() if "HARNESS-ERROR" in l][0])
+        if summary is None or rc not in (0, 1, 3):
+            if rc in (98, 99) or "Sanitizer" in err or "runtime error" in err:
+                first = [l for l in err.splitlines() if "ERROR: AddressSanitizer" in l or "runtime error" in l or "SUMMARY" in l]
+                m.append(("Sanitizer", name, (first or ["sanitizer report"])[0][:300]))
+            else:
+                raise vlib.HarnessError("replay_omp failed in %s (exit %s): %s" % (name, rc, (err or out)[-400:]))
+        else:
+            checks += summary.get("checks", 0)
+        for l in out.splitlines():
+            if l.startswith("INFO tlcSchedulesReplayed="):
+                tlcrep += int(l.split("=")[1])
+        mism += m
+        if os.path.exists(gf) and os.path.getsize(gf) > 0:
+            gfiles.append(gf)
+    run.add_harness(name, {"scenarios": len(recs), "checks": checks, "mismatches": len(mism), "tlc_schedules_replayed": tlcrep, "schedules_per_scenario": 6 if tier == "quick" else 14}, 0)
+    run.coverage["traces_validated_against_impl"] += len(recs)
+    run.coverage["evaluations"] += len(recs) * (6 if tier == "quick" else 14) + tlcrep
+    run.coverage["distinct_nontrivial"] += sum(1 for r in scn if len(set(r["sparts"])) >= 2 and max(len(l) for l in r["sgroups"]) >= 2)
+    gall = None
+    if gfiles:
+        gall = os.path.join(gdir, "%s-%d-all.ndjson" % (name, os.getpid()))
+        with open(gall, "w") as f:
+            for gf in gfiles:
+                f.write(open(gf).read())
+                os.remove(gf)
+    return list(zip(scn, recs)), mism, gall
+
+
+def taskruntime_on(run, name, gall, tier, pairs):
+    """code -> spec: TLC explores the interleavings of the recorded graphs (NoRace, AllDone, Covered => NoRace), validates the orders the
+    mock runtime actually used, and generates schedules that are replayed through the mock runtime (spec -> code)."""
+    maxt = 12 if tier == "quick" else 16
+    consts = dict(NbWorkers=2 if tier == "quick" else 3, MaxTasksExhaustive=maxt, Shard=0, NbShards=1, EmitSchedules=True)
+    def one(i):
+        c = dict(consts); c["Shard"], c["NbShards"] = i, 8
+        text = cfg("FairSpec", c, ["NoRace", "CoveredImpliesNoRace", "Report", "Emit"], ["AllDone"], extra="VIEW View")
+        return run_tlc("TaskRuntime", text, env={"GRAPHS": gall}, workers=1, timeout=1500, tag="%s-s%d" % (name, i), heap="3g")
+    with ThreadPoolExecutor(max_workers=8) as ex:
+        parts = list(ex.map(one, range(8)))
+    res = parts[0]
+    for p in parts[1:]:
+        res.generated += p.generated; res.distinct += p.distinct; res.lines += p.lines; res.wall = max(res.wall, p.wall)
+        res.ok = res.ok and p.ok; res.violated = res.violated or p.violated; res.error = res.error or p.error
+    run.add_tlc(name, res, note="TaskRuntime.tla on %d recorded task graphs, exhaustive interleavings for graphs of <= %d tasks with %d workers" % (
+        sum(1 for r in res.lines if r.get("k") == "graph"), maxt, consts["NbWorkers"]))
+    graphs = [r for r in res.lines if r.get("k") == "graph"]
+    run.coverage["task_graphs_loaded"] = run.coverage.get("task_graphs_loaded", 0) + len(graphs)
+    run.coverage["task_graphs_explored_exhaustively"] = run.coverage.get("task_graphs_explored_exhaustively", 0) + sum(1 for gph in graphs if gph["explored"])
+    if res.violated:
+        run.violation("NoRace:" + name, "TLC: %s violated on a task graph recorded from the real executor (log %s)" % (res.violated, res.logpath),
+                      run.write_replay("NoRace-" + name, {"kind": "taskgraph", "graphs": gall, "log": res.logpath}))
+    for gph in graphs:
+        if not gph["runsLegal"]:
+            run.machinery_errors.append("the mock runtime ran graph %s in an order TaskRuntime.tla does not allow (harness bug)" % gph["key"])
+        if not gph["covered"]:
+            run.violation("Covered:" + gph["key"], "TLC: the declared dependences of the recorded graph do not cover its actual conflicts",
+                          run.write_replay("Covered-" + gph["key"], {"kind": "taskgraph", "graphs": gall, "key": gph["key"]}))
+    if graphs:
+        run.sample({"task_graph": graphs[0]})
+    scheds = [r for r in res.lines if r.get("k") == "sched"]
+    if not scheds:
+        return []
+    spath = os.path.join(CACHE, "graphs", "%s-%d.sched" % (name, os.getpid()))
+    with open(spath, "w") as f:
+        for sc in scheds:
+            f.write("%s %d %s\n" % (sc["key"], len(sc["order"]), " ".join(map(str, sc["order"]))))
+    run.coverage["tlc_generated_schedules"] = run.coverage.get("tlc_generated_schedules", 0) + len(scheds)
+    return spath
+
+
+C03_KINDS = ["SameAsSequential", "Covered", "Crash", "Sanitizer", "WorkerKernelBound", "KernelPerWorker", "Arg", "ExecPreservesSymbolic", "WriteSets", "Counters"]
+
+
+def omp_configs(tier):
+    if tier == "quick":
+        return [("omp-1d-h5", fmm_constants(1, 5, POOL_1D_H5[:8], bss=(1, 2, 3, 20), hists=("full", "stages3"))),
+                ("omp-2d-h4", fmm_constants(2, 4, POOL_2D_H4[:6], bss=(1, 2, 20))),
+                ("omp-3d-h4", fmm_constants(3, 4, POOL_3D_H4[:5], bss=(1, 2, 20))),
+                ("omp-tsm-1d-h5", fmm_constants(1, 5, POOL_1D_H5[:5], mode="tsm", bss=(1, 2, 20))),
+                ("omp-tsm-2d-h4", fmm_constants(2, 4, POOL_2D_H4[:4], mode="tsm", bss=(1, 2)))]
+    return [("omp-1d-h5", fmm_constants(1, 5, POOL_1D_H5, bss=(1, 2, 3, 5, 20), hists=("full", "stages3", "single6"))),
+            ("omp-1d-h6", fmm_constants(1, 6, POOL_1D_H6, bss=(1, 2, 3, 20))),
+            ("omp-2d-h4", fmm_constants(2, 4, POOL_2D_H4[:8], bss=(1, 2, 3, 20), stops=(0, 2))),
+            ("omp-3d-h4", fmm_constants(3, 4, POOL_3D_H4[:7], bss=(1, 2, 3, 20))),
+            ("omp-4d-h3", fmm_constants(4, 3, POOL_4D_H3[:5], bss=(1, 2, 20))),
+            ("omp-tsm-1d-h5", fmm_constants(1, 5, POOL_1D_H5[:6], mode="tsm", bss=(1, 2, 3, 20))),
+            ("omp-tsm-2d-h4", fmm_constants(2, 4, POOL_2D_H4[:5], mode="tsm", bss=(1, 2, 20))),
+            ("omp-tsm-3d-h3", fmm_constants(3, 3, POOL_3D_H3[:4], mode="tsm", bss=(1, 2)))]
+
+
+@check("C03", "model_checking")
+def check_c03(run):
+    for name, consts in omp_configs(run.tier):
+        pairs, mism, gall = omp_campaign(run, "C03-" + name, consts, run.tier)
+        report_mismatches(run, "C03", "C03-" + name, pairs, [(k, re.sub(r"-(immediate|deferred|tlc)-.*$", "", key), "%s [%s]" % (t, key)) for k, key, t in mism], C03_KINDS)
+        if gall:
+            spath = taskruntime_on(run, "C03-" + name + "-graphs", gall, run.tier, pairs)
+            if spath:
+                keys = set(l.split(" ", 1)[0] for l in open(spath))
+                sub = [(r, line) for r, line in pairs if re.sub(r"^", "", scenario_key(r, line)) in keys]
+                if sub:
+                    # spec -> code: run the schedules TLC found through the mock runtime
+                    binp = need(build("replay_omp_%d_%d_64" % (consts["Dim"], int(consts["Periodic"])), "replay_omp.cpp", ["DIMV=%d" % consts["Dim"], "PERIODICV=%d" % int(consts["Periodic"]), "CAPV=64"]), run)
+                    rc, out, err = run_bin(binp, [], stdin_text="\n".join(l for _, l in sub) + "\n", env={"VERIF_SCHEDULES": spath}, timeout=900)
+                    m2, summary = parse_harness_output(out)
+                    if "HARNESS-ERROR" in out:
+                        raise vlib.HarnessError("replay_omp (TLC schedules): " + [l for l in out.splitlines() if "HARNESS-ERROR" in l][0])
+                    nrep = sum(int(l.split("=")[1]) for l in out.splitlines() if l.startswith("INFO tlcSchedulesReplayed="))
+                    run.coverage["tlc_schedules_replayed"] = run.coverage.get("tlc_schedules_replayed", 0) + nrep
+                    report_mismatches(run, "C03", "C03-" + name, sub, [(k, re.sub(r"-(immediate|deferred|tlc)-.*$", "", key), "%s [%s]" % (t, key)) for k, key, t in m2], C03_KINDS)
+    # lifetime of captured variables: the same schedules on the AddressSanitizer build (detect_stack_use_after_return)
+    for name, consts in omp_configs(run.tier)[:: (2 if run.tier == "quick" else 1)]:
+        pairs, mism, _ = omp_campaign(run, "C03-asan-" + name, consts, "quick", variant="asan", graphs=0, limit=60 if run.tier == "quick" else 400)
+        report_mismatches(run, "C03", "C03-asan-" + name, pairs, [(k, re.sub(r"-(immediate|deferred|tlc)-.*$", "", key), "%s [%s]" % (t, key)) for k, key, t in mism], C03_KINDS)
+    run.coverage["rule"] = ("one case = one TLC scenario (occupancy, block size, grouping mode, history) executed by TbfOpenmpAlgorithm / TbfOpenmpAlgorithmTsm under the mock "
+                            "GOMP runtime with each listed schedule (immediate; fully deferred fifo, lifo, random, priority-inverted, with stack scrubbing; thread counts 1-16; "
+                            "round-robin / random / last worker ids) and compared bag by bag with the sequential executor; the recorded task graph (declared dependences mapped to "
+                            "group buffers, actual accesses from the kernel callbacks) must satisfy Covered; a sample of graphs is explored by TLC (TaskRuntime.tla: NoRace, AllDone, "
+                            "Covered => NoRace over all interleavings) and TLC's schedules are replayed through the mock runtime; an AddressSanitizer build repeats a subset")
+    run.assumptions += FMM_ASSUME[:1] + ["the mock runtime implements the OpenMP dependence rules (its run orders are validated by TLC against TaskRuntime.tla); schedules are executed one task at a time, which is sound for result equality only together with NoRace/Covered on actual accesses",
+                                         "GCC 12 defines _OPENMP=201511, so `commute` expands to inout; Specx and StarPU executors are not covered by this check (see DESIGN.md)"]
+
+
+@check("C15", "exploration")
+def check_c15(run):
+    """No UB on valid inputs: the scenarios, histories and schedules generated by TLC are re-run on builds with AddressSanitizer (leaks,
+    stack-use-after-return), UndefinedBehaviorSanitizer, library assertions enabled and pattern-initialised automatic variables."""
+    small = run.tier == "quick"
+    cs = [("1d-h5", fmm_constants(1, 5, POOL_1D_H5[:6 if small else 9], bss=(1, 2, 3, 20), stops=(0, 2, 5), hists=("full", "stages3", "move2"))),
+          ("2d-h4", fmm_constants(2, 4, POOL_2D_H4[:5 if small else 7], bss=(1, 2, 20), hists=("full", "move1"))),
+          ("3d-h3", fmm_constants(3, 3, POOL_3D_H3[:4 if small else 6], bss=(1, 2, 20), hists=("full", "rebuild"))),
+          ("4d-h3", fmm_constants(4, 3, POOL_4D_H3[:3 if small else 5], bss=(1, 2), hists=("full",))),
+          ("tsm-1d-h4", fmm_constants(1, 4, range(4 if small else 6), mode="tsm", bss=(1, 2, 20))),
+          ("per-1d-h4", fmm_constants(1, 4, [0, 3, 4, 7], periodic=True, stops=(1,), bss=(1, 2, 20))),
+          ("per-2d-h3", fmm_constants(2, 3, [0, 5, 10, 15], periodic=True, stops=(1,), bss=(1, 20)))]
+    allk = sorted(set(k for v in KINDS.values() for k in v) | {"Sanitizer", "Crash"})
+    def one(c):
+        name, consts = c
+        return name, fmm_campaign(run, "C15-" + name, consts, variant="asan", cap=256 if consts["Periodic"] else 64)
+    with ThreadPoolExecutor(max_workers=2) as ex:
+        results = list(ex.map(one, cs))
+    for name, (pairs, mism) in results:
+        report_mismatches(run, "C15", "C15-" + name, pairs, mism, ["Sanitizer", "Crash"])
+    for name, consts in omp_configs("quick")[:: (2 if small else 1)]:
+        pairs, mism, _ = omp_campaign(run, "C15-omp-" + name, consts, "quick", variant="asan", graphs=0, limit=80 if small else 500)
+        report_mismatches(run, "C15", "C15-omp-" + name, pairs, [(k, re.sub(r"-(immediate|deferred|tlc)-.*$", "", key), "%s [%s]" % (t, key)) for k, key, t in mism], ["Sanitizer", "Crash"])
+    run.coverage["rule"] = ("one case = one TLC-generated scenario (tree, history of execute/move/rebuild calls, for the task executors each of 6 schedules incl. full deferral) "
+                            "executed on a -fsanitize=address,undefined -UNDEBUG -ftrivial-auto-var-init=pattern build with leak detection and detect_stack_use_after_return; "
+                            "a sanitizer report, a failed library assertion or a fault is the violation; non-trivial = at least two occupied leaves and two groups at some level")
+    run.assumptions += ["the model contributes inputs, histories and schedules and the invariants BatchWithinCapacity / NoAssertFail; undefined behaviour itself is observed by the sanitizers, not by TLC",
+                        "MSan/valgrind are not part of the quick tier"]
 
 
 # =====================================================================================================
